@@ -84,6 +84,7 @@ static struct {
 		enum rx_state state;
 		uint8_t dlci;
 		uint8_t ctrl;
+		uint8_t hdr_escape;
 	} rx;
 	
 } sercomm;
@@ -268,12 +269,23 @@ int sercomm_drv_rx_char(uint8_t ch)
 		sercomm.rx.state = RX_ST_ADDR;
 		break;
 	case RX_ST_ADDR:
-		sercomm.rx.dlci = ch;
-		sercomm.rx.state = RX_ST_CTRL;
-		break;
 	case RX_ST_CTRL:
-		sercomm.rx.ctrl = ch;
-		sercomm.rx.state = RX_ST_DATA;
+		/* the sender escapes address and control like any other octet */
+		if (!sercomm.rx.hdr_escape && ch == HDLC_ESCAPE) {
+			sercomm.rx.hdr_escape = 1;
+			break;
+		}
+		if (sercomm.rx.hdr_escape) {
+			sercomm.rx.hdr_escape = 0;
+			ch ^= (1 << 5);
+		}
+		if (sercomm.rx.state == RX_ST_ADDR) {
+			sercomm.rx.dlci = ch;
+			sercomm.rx.state = RX_ST_CTRL;
+		} else {
+			sercomm.rx.ctrl = ch;
+			sercomm.rx.state = RX_ST_DATA;
+		}
 		break;
 	case RX_ST_DATA:
 		if (ch == HDLC_ESCAPE) {
